@@ -161,7 +161,8 @@ fn part_sort(cx: &mut Ctx, journal: &Journal) {
 				}
 				cx.call(journal, f, args, &format!("keyF={kn}, {}", shape_of(a)));
 			}
-			if kn == "none" || kn == "negate" || kn == "partial" {
+			// every key function: the tie-producing ones (mod2, constant) decide which of several extreme elements wins
+			{
 				for f in ["minArray", "maxArray"] {
 					let mut named = vec![];
 					if let Some(k) = &kf {
